@@ -165,6 +165,16 @@ func (graphScen) Gen(r *Rng, cfg GenConfig) any {
 		t := Pick(r, c.Prog.Tasks)
 		c.Fail = []string{fmt.Sprintf("%s_%d", t.Name, r.Intn(t.NCmd))}
 	}
+	if r.Chance(1, 6) {
+		// a global variable may share its name with a task (only duplicate TASKS are rejected);
+		// its value names an existing file, an existing directory or nothing in particular
+		t := Pick(r, c.Prog.Tasks)
+		val := Pick(r, []string{"a.txt", "b.txt", "src", "some value"})
+		if val == "a.txt" || val == "b.txt" {
+			c.Disk[val] = "1"
+		}
+		c.Prog.Vars = append(c.Prog.Vars, VarDef{Name: t.Name, Kind: "str", Args: []string{val}})
+	}
 	return c
 }
 
@@ -400,6 +410,9 @@ func (graphScen) Shrinks(cc any) []any {
 		if len(c.Request) > 1 {
 			add(func(n *GraphCase) { n.Request = append(n.Request[:i:i], n.Request[i+1:]...) })
 		}
+	}
+	for vi := range c.Prog.Vars {
+		add(func(n *GraphCase) { n.Prog.Vars = append(n.Prog.Vars[:vi:vi], n.Prog.Vars[vi+1:]...) })
 	}
 	for ti := range c.Prog.Tasks {
 		if len(c.Prog.Tasks) > 1 {
